@@ -149,7 +149,7 @@ struct Flight {
 #[derive(Clone, Debug)]
 pub enum WEv {
     Sent { to: SocketAddr, node: Option<usize>, kind: &'static str, len: usize, msg: Option<RefMessage> },
-    Injected { from: SocketAddr, node: Option<usize>, label: String },
+    Injected { from: SocketAddr, node: Option<usize>, label: String, msg: Option<RefMessage> },
     Dropped { to_victim: bool, node: usize },
     Event(String),
     Note(String),
@@ -351,13 +351,16 @@ impl World {
     pub fn node_lose_session(&mut self, i: usize) {
         let vid = self.victim_id;
         self.nodes[i].sim.keys.remove(&vid);
+        // key generations are numbered from 0 again
+        self.nodes[i].gen_created.clear();
+        self.nodes[i].gen_at_victim.clear();
     }
 
     /// Inject right now, bypassing the fault injector (attack scripts). Counts as the step's input.
     pub fn inject_now(&mut self, from: SocketAddr, bytes: Vec<u8>, label: &str) {
         let at = self.now();
         let _ = self.wire.inject.send((from, bytes));
-        self.trace.push((at, WEv::Injected { from, node: None, label: label.to_string() }));
+        self.trace.push((at, WEv::Injected { from, node: None, label: label.to_string(), msg: None }));
         self.last_injected = Some(Injected { from, node: None, tag: Tag { via: "crafted", msg: None, label: label.to_string(), gen: None } });
     }
 
@@ -569,7 +572,7 @@ impl World {
                 if f.to_victim {
                     fed = true;
                     let _ = self.wire.inject.send((f.addr, f.bytes.clone()));
-                    self.trace.push((now, WEv::Injected { from: f.addr, node: Some(f.node), label: f.tag.label.clone() }));
+                    self.trace.push((now, WEv::Injected { from: f.addr, node: Some(f.node), label: f.tag.label.clone(), msg: f.tag.msg.clone() }));
                     self.last_injected = Some(Injected { from: f.addr, node: Some(f.node), tag: f.tag });
                 } else {
                     self.node_react(f.node, &f.bytes);
@@ -678,7 +681,7 @@ impl World {
                 .map(|(at, e)| {
                     let s = match e {
                         WEv::Sent { to, node, kind, len, msg } => format!("victim -> {to} (node {node:?}) {kind} {len}B {}", msg.as_ref().map(show).unwrap_or_default()),
-                        WEv::Injected { from, node, label } => format!("{from} (node {node:?}) -> victim: {label}"),
+                        WEv::Injected { from, node, label, .. } => format!("{from} (node {node:?}) -> victim: {label}"),
                         WEv::Dropped { to_victim, node } => format!("network lost a datagram ({} node {node})", if *to_victim { "from" } else { "to" }),
                         WEv::Event(s) => format!("event {s}"),
                         WEv::Note(s) => format!("-- {s}"),
